@@ -7,7 +7,6 @@
 From Coq Require Import Floats Uint63.
 From Coq Require Import String.
 From God Require Import Base.Prelude C14.Model C14.Spec C14.Client.
-From GodGen Require C14_Gen.
 Local Open Scope Z_scope.
 
 (* ---------- binary64 instance of the oracles ---------- *)
@@ -351,27 +350,27 @@ Definition to_copt (o : xcopt) : copt :=
 Definition label_of (d : dialopt) : Z :=
   match d with DSvcCfg _ => -2 | DUser t => Z.of_nat t | _ => -1 end.
 
-(* fmt.Sprintf(`{"loadBalancingPolicy":"%s"}`, p2c.Name)  (client.go:50) with the regenerated p2c.Name *)
+(* fmt.Sprintf(`{"loadBalancingPolicy":"%s"}`, p2c.Name)  (client.go:50) *)
 Definition svc_json (name : string) : string :=
   ("{""loadBalancingPolicy"":""" ++ name ++ """}")%string.
 
 (* the option-list model reproduces number and order of the assembled dial options; the ClientConn carries
    the service config NewClient formats and runs the balancer registered under that name *)
 Definition cmodel_ok (c : ccase) : bool :=
-  let ds := new_client_dial_options C14_Gen.Name (map to_copt (cc_opts c)) in
+  let ds := new_client_dial_options p2c_name (map to_copt (cc_opts c)) in
   Zlist_eqb (map label_of ds) (cc_labels c) &&
   negb (cc_dial_err c) &&
-  String.eqb (cc_svc c) (svc_json C14_Gen.Name) &&
+  String.eqb (cc_svc c) (svc_json p2c_name) &&
   match effective_policy ds with Some p => String.eqb (cc_balancer c) p | None => false end &&
   Nat.eqb (List.length (cc_counts c)) (cc_backends c) &&
   (cc_min_calls c <=? cc_calls c).
 
-(* the property, on the observations alone: the client runs the P2C balancer (the name p2c registers under,
-   regenerated from p2c.go) and, under sustained calls, every ready backend is picked *)
+(* the property, on the observations alone: the client runs the P2C balancer ("p2c_ewma", Client.p2c_name; no
+   regenerated definition is used by the checkers) and, under sustained calls, every ready backend is picked *)
 Definition cspec_ok (c : ccase) : bool :=
   negb (cc_dial_err c) &&
   existsb (Z.eqb (-2)) (cc_labels c) &&
-  String.eqb (cc_balancer c) C14_Gen.Name &&
+  String.eqb (cc_balancer c) p2c_name &&
   Nat.eqb (List.length (cc_counts c)) (cc_backends c) &&
   forallb (fun n => 0 <? n) (cc_counts c).
 
